@@ -6,6 +6,7 @@ import SeqVerif.Model.BulkMetaCodec
 import SeqVerif.Model.BulkIndex
 import SeqVerif.Model.BulkResponse
 import SeqVerif.Model.BulkConfig
+import SeqVerif.Model.BulkID
 import SeqVerif.Extracted.C10
 /-!
 Driver for C10.  Requests (hex = byte string, `-` = empty):
@@ -25,6 +26,7 @@ Driver for C10.  Requests (hex = byte string, `-` = empty):
   `bulk.resp <took ms> <total>`                             -> `ok <body hex>`   (SV.Bulk.bulkResponse = writeBulkResponse)
   `bulk.defaults <searchTimeout> <exportTimeout> <maxInflightBulks> <allowedTimeDrift> <futureAllowedTimeDrift>`
                                                             -> `ok <the five values after SV.Bulk.setDefaults>` (defaults: extracted consts)
+  `bulk.newid <t ns> <rand.Uint64 draw> <proxy index>`      -> `ok <MID> <RID>`  (SV.BulkTime.newID on processRandomness)
   `bulk.metas <metas payload hex>`                          -> `ok <mid:rid:size:khex=vhex+...,...> reenc=<0|1>` | `err malformed`
   `bulk.delayed <docDelay> <drift> <futureDrift>`           -> `ok <0|1>`     (extracted translation of documentDelayed)
   `bulk.mid <doc ns | none> <req ns> <drift> <futureDrift>` -> `ok <MID>`
@@ -231,6 +233,12 @@ def step (line : String) : String :=
         SV.Extracted.C10.ingestorMaxInflightBulks ⟨st, et, mi, dr, fu⟩
       s!"ok {c.searchTimeout} {c.exportTimeout} {c.maxInflightBulks} {c.allowedTimeDrift} {c.futureAllowedTimeDrift}"
     | _, _, _, _, _ => "bad-op"
+  | ["bulk.newid", t, r, idx] =>
+    match t.toInt?, r.toNat?, idx.toNat? with
+    | some t, some r, some idx =>
+      let id := newID t (processRandomness r idx)
+      s!"ok {id.1} {id.2}"
+    | _, _, _ => "bad-op"
   | ["bulk.resp", took, total] =>
     match took.toNat?, total.toNat? with
     | some t, some n => s!"ok {fmtHex (bulkResponse t n)}"
